@@ -70,6 +70,156 @@ theorem interpretOps_eq_evalTree (S : OpsSem σ ε V X) (tr : V → Bool) (htr :
     interpretOps S obj o rest = evalTree S (aspGroup S.prec (.val obj) o rest) := by
   rw [evalTree_aspGroup S tr htr]; simp [evalTree]
 
+/-! ### The same without assuming that truthiness ignores the state
+
+`interpretOps` asks `obj.IsTruthy()` before it evaluates the rest of the list and again afterwards (through
+`interpretOp` on the constant `nobj`).  A dict's answer depends on the heap, so the two answers can differ when an
+operand changes that dict; tree evaluation asks once.  The equality therefore needs: evaluating operands and strict
+operators keeps the truthiness of values (`Stable`).  `Props/C16.lean` has the program where it fails otherwise. -/
+
+/-- A successful run of `m` never changes the truthiness of a value. -/
+def KeepsTruth (S : OpsSem σ ε V X) {α : Type} (m : M σ ε α) : Prop :=
+  ∀ s a s', m.run s = .ok (a, s') → ∀ v, S.truthy s' v = S.truthy s v
+
+/-- The operand evaluator and the strict operators keep truthiness: no operand empties or fills a dict that is
+    being tested by an enclosing `and` / `or`. -/
+structure Stable (S : OpsSem σ ε V X) : Prop where
+  ev : ∀ x, KeepsTruth S (S.ev x)
+  un : ∀ u v, KeepsTruth S (S.un u v)
+  bin : ∀ b v w, KeepsTruth S (S.bin b v w)
+
+theorem KeepsTruth.pure (S : OpsSem σ ε V X) {α : Type} (a : α) : KeepsTruth S (pure a : M σ ε α) := by
+  intro s a' s' h v
+  simp only [StateT.run, Pure.pure, StateT.pure, Except.pure] at h
+  cases h; rfl
+
+theorem KeepsTruth.bind (S : OpsSem σ ε V X) {α β : Type} {x : M σ ε α} {f : α → M σ ε β}
+    (hx : KeepsTruth S x) (hf : ∀ a, KeepsTruth S (f a)) : KeepsTruth S (x >>= f) := by
+  intro s b s' h v
+  simp only [StateT.run, Bind.bind, StateT.bind, Except.bind] at h
+  cases hx0 : x s with
+  | error e => rw [hx0] at h; cases h
+  | ok p =>
+    obtain ⟨a, s1⟩ := p
+    rw [hx0] at h
+    rw [hf a s1 b s' h v, hx s a s1 hx0 v]
+
+theorem KeepsTruth.getBind (S : OpsSem σ ε V X) {α : Type} {f : σ → M σ ε α} (hf : ∀ s, KeepsTruth S (f s)) :
+    KeepsTruth S ((get : M σ ε σ) >>= f) := by
+  intro s b s' h v
+  exact hf s s b s' h v
+
+theorem KeepsTruth.ite (S : OpsSem σ ε V X) {α : Type} {c : Prop} [Decidable c] {a b : M σ ε α}
+    (ha : KeepsTruth S a) (hb : KeepsTruth S b) : KeepsTruth S (if c then a else b) := by
+  split <;> assumption
+
+theorem KeepsTruth.interpretOp (S : OpsSem σ ε V X) (hS : Stable S) (obj : V) (o : OpE X) :
+    KeepsTruth S (interpretOp S obj o) := by
+  cases o with
+  | un u => exact hS.un u obj
+  | bin b e =>
+    simp only [Asp.interpretOp]
+    split
+    · exact KeepsTruth.getBind S fun s => KeepsTruth.ite S (hS.ev e) (KeepsTruth.pure S obj)
+    · exact KeepsTruth.bind S (hS.ev e) fun w => hS.bin b obj w
+
+theorem KeepsTruth.interpretOpVal (S : OpsSem σ ε V X) (hS : Stable S) (obj : V) (b : BinOp) (nobj : V) :
+    KeepsTruth S (interpretOpVal S obj b nobj) := by
+  simp only [Asp.interpretOpVal]
+  split
+  · exact KeepsTruth.getBind S fun s => KeepsTruth.ite S (KeepsTruth.pure S _) (KeepsTruth.pure S _)
+  · exact hS.bin b obj nobj
+
+theorem KeepsTruth.interpretOps (S : OpsSem σ ε V X) (hS : Stable S) (rest : List (OpE X)) :
+    ∀ (obj : V) (o : OpE X), KeepsTruth S (interpretOps S obj o rest) := by
+  induction rest with
+  | nil => intro obj o; simp only [Asp.interpretOps]; exact KeepsTruth.interpretOp S hS obj o
+  | cons o1 rest ih =>
+    intro obj o0
+    simp only [Asp.interpretOps]
+    split
+    · exact KeepsTruth.bind S (KeepsTruth.interpretOp S hS obj o0) fun v => ih v o1
+    · cases o0 with
+      | un u => exact KeepsTruth.bind S (ih obj o1) fun v => hS.un u v
+      | bin b e =>
+        simp only []
+        exact KeepsTruth.getBind S fun s => KeepsTruth.ite S (KeepsTruth.pure S obj)
+          (KeepsTruth.bind S (hS.ev e) fun w => KeepsTruth.bind S (ih w o1) fun nobj =>
+            KeepsTruth.interpretOpVal S hS obj b nobj)
+
+/-- The one place where `interpretOps` asks for the truthiness of the same value twice: if the computation in
+    between keeps truthiness, the second answer is the first. -/
+theorem lazy_recheck (S : OpsSem σ ε V X) (Xc : M σ ε V) (hX : KeepsTruth S Xc) (v : V) (isAnd : Bool) (s0 : σ)
+    (h : (S.truthy s0 v == isAnd) = true) :
+    (Xc >>= fun nobj => (do let s ← (get : M σ ε σ); if S.truthy s v == isAnd then Pure.pure nobj else Pure.pure v)) s0
+      = Xc s0 := by
+  simp only [Bind.bind, StateT.bind, Except.bind]
+  cases hx : Xc s0 with
+  | error e => rfl
+  | ok p =>
+    obtain ⟨nobj, s1⟩ := p
+    have ht := hX s0 nobj s1 hx v
+    simp [get, getThe, MonadStateOf.get, StateT.get, Pure.pure, StateT.pure, Except.pure, ht, h]
+
+/-- Generalised statement: grouping onto an arbitrary tree `t` = evaluate `t`, then run `interpretOps`. -/
+theorem evalTree_aspGroup_stable (S : OpsSem σ ε V X) (hS : Stable S) (rest : List (OpE X)) :
+    ∀ (t : Tree V X) (o : OpE X),
+      evalTree S (aspGroup S.prec t o rest) = (do let v ← evalTree S t; interpretOps S v o rest) := by
+  induction rest with
+  | nil => intro t o; simp [aspGroup, Asp.interpretOps, evalTree_node]
+  | cons o1 rest ih =>
+    intro t o0
+    unfold aspGroup
+    by_cases h : S.prec o0.op ≥ S.prec o1.op
+    · simp only [h, if_true]
+      rw [ih (t.node o0) o1, evalTree_node]
+      simp only [bind_assoc]
+      congr 1; funext v
+      simp [Asp.interpretOps, h]
+    · simp only [h, if_false]
+      cases o0 with
+      | un u =>
+        simp only [evalTree]
+        rw [ih t o1]
+        simp only [bind_assoc]
+        congr 1; funext v
+        simp only [Asp.interpretOps, h, if_false]
+      | bin b e =>
+        simp only [evalTree]
+        congr 1; funext v
+        have h' : ¬ (S.prec (OpE.bin b e).op ≥ S.prec o1.op) := h
+        simp only [Asp.interpretOps, h', if_false]
+        rw [ih (.operand e) o1]
+        simp only [evalTree, Asp.interpretOpVal]
+        by_cases hl : b.lazy = true
+        · simp only [hl, if_true, Bool.true_and]
+          funext s0
+          have hX : KeepsTruth S (do let w ← S.ev e; Asp.interpretOps S w o1 rest) :=
+            KeepsTruth.bind S (hS.ev e) fun w => KeepsTruth.interpretOps S hS rest w o1
+          by_cases ht : (S.truthy s0 v == (b == .and_)) = true
+          · have hne : (S.truthy s0 v != (b == .and_)) = false := by
+              cases hv : S.truthy s0 v <;> cases hb : (b == BinOp.and_) <;> simp_all
+            have := lazy_recheck S _ hX v (b == .and_) s0 ht
+            simp only [bind_assoc] at this
+            simp [Bind.bind, StateT.bind, get, getThe, MonadStateOf.get, StateT.get, Except.bind, Pure.pure,
+              Except.pure, ht, hne] at this ⊢
+            exact this.symm
+          · have hne : (S.truthy s0 v != (b == .and_)) = true := by
+              cases hv : S.truthy s0 v <;> cases hb : (b == BinOp.and_) <;> simp_all
+            simp [Bind.bind, StateT.bind, get, getThe, MonadStateOf.get, StateT.get, Except.bind, Pure.pure,
+              Except.pure, ht, hne]
+        · simp [hl, get_bind_const]
+
+/-- **interpretOps is tree evaluation of asp's grouping** whenever operands and strict operators keep truthiness. -/
+theorem interpretOps_eq_evalTree_stable (S : OpsSem σ ε V X) (hS : Stable S)
+    (obj : V) (o : OpE X) (rest : List (OpE X)) :
+    interpretOps S obj o rest = evalTree S (aspGroup S.prec (.val obj) o rest) := by
+  rw [evalTree_aspGroup_stable S hS]; simp [evalTree]
+
+/-- A truthiness that does not look at the state is kept by everything. -/
+theorem Stable.of_pure (S : OpsSem σ ε V X) (tr : V → Bool) (htr : ∀ s v, S.truthy s v = tr v) : Stable S :=
+  ⟨fun _ _ _ _ _ v => by rw [htr, htr], fun _ _ _ _ _ _ v => by rw [htr, htr], fun _ _ _ _ _ _ _ v => by rw [htr, htr]⟩
+
 /-! ### Only the order of precedences matters -/
 
 theorem aspGroup_congr (p q : Op → Int) (hpq : ∀ a b, p a ≥ p b ↔ q a ≥ q b) (rest : List (OpE X)) :
